@@ -62,6 +62,10 @@ func (p *Parser) nextToken() error {
 
 	token, err := p.lexer.NextToken()
 	if err != nil {
+		// Input that cannot be tokenized ends the token stream: callers that only
+		// look at the tokens then see EOF instead of the previous token again
+		// (which made "<< /A > >>" spin forever).
+		p.peekToken = &Token{Type: TokenEOF, Pos: -1}
 		return err
 	}
 	p.peekToken = token
@@ -295,6 +299,10 @@ func (p *Parser) ParseIndirectObject() (*IndirectObject, error) {
 	// Skip comments
 	if err := p.skipComments(); err != nil {
 		return nil, err
+	}
+
+	if p.currentToken == nil {
+		return nil, fmt.Errorf("unexpected end of input")
 	}
 
 	// Parse object number
